@@ -136,7 +136,28 @@ fn exec(regs: &mut Regs, cx: &mut Cx, op: &Op) -> (String, Vec<usize>, Vec<usize
         Op::Map(i, mop) => {
             let i = *i;
             match mop {
-                MapOp::CloneTo(dst) => {
+                MapOp::CloneFrom(dst) if *dst != i && std::mem::discriminant(&regs.m[i]) == std::mem::discriminant(&regs.m[*dst]) => {
+                    let d = *dst;
+                    let (src, dstm) = if i < d {
+                        let (l, r) = regs.m.split_at_mut(d);
+                        (&l[i], &mut r[0])
+                    } else {
+                        let (l, r) = regs.m.split_at_mut(i);
+                        (&r[0], &mut l[d])
+                    };
+                    match (src, dstm) {
+                        (AnyMap::C0(a), AnyMap::C0(b)) => ctl::mm(|| b.c.clone_from(&a.c)),
+                        (AnyMap::C1(a), AnyMap::C1(b)) => ctl::mm(|| b.c.clone_from(&a.c)),
+                        (AnyMap::C2(a), AnyMap::C2(b)) => ctl::mm(|| b.c.clone_from(&a.c)),
+                        (AnyMap::C3(a), AnyMap::C3(b)) => ctl::mm(|| b.c.clone_from(&a.c)),
+                        (AnyMap::C4(a), AnyMap::C4(b)) => ctl::mm(|| b.c.clone_from(&a.c)),
+                        (AnyMap::C6(a), AnyMap::C6(b)) => ctl::mm(|| b.c.clone_from(&a.c)),
+                        (AnyMap::C300(a), AnyMap::C300(b)) => ctl::mm(|| b.c.clone_from(&a.c)),
+                        _ => unreachable!(),
+                    }
+                    ("()".into(), vec![i, d], vec![])
+                }
+                MapOp::CloneTo(dst) | MapOp::CloneFrom(dst) => {
                     let c: AnyMap = match &regs.m[i] {
                         AnyMap::C0(b) => AnyMap::C0(regs::Caged::new(ctl::mm(|| b.c.clone()))),
                         AnyMap::C1(b) => AnyMap::C1(regs::Caged::new(ctl::mm(|| b.c.clone()))),
@@ -209,7 +230,28 @@ fn exec(regs: &mut Regs, cx: &mut Cx, op: &Op) -> (String, Vec<usize>, Vec<usize
         Op::Set(i, sop) => {
             let i = *i;
             match sop {
-                SetOp::CloneTo(dst) => {
+                SetOp::CloneFrom(dst) if *dst != i && std::mem::discriminant(&regs.s[i]) == std::mem::discriminant(&regs.s[*dst]) => {
+                    let d = *dst;
+                    let (src, dstm) = if i < d {
+                        let (l, r) = regs.s.split_at_mut(d);
+                        (&l[i], &mut r[0])
+                    } else {
+                        let (l, r) = regs.s.split_at_mut(i);
+                        (&r[0], &mut l[d])
+                    };
+                    match (src, dstm) {
+                        (AnySet::C0(a), AnySet::C0(b)) => ctl::mm(|| b.c.clone_from(&a.c)),
+                        (AnySet::C1(a), AnySet::C1(b)) => ctl::mm(|| b.c.clone_from(&a.c)),
+                        (AnySet::C2(a), AnySet::C2(b)) => ctl::mm(|| b.c.clone_from(&a.c)),
+                        (AnySet::C3(a), AnySet::C3(b)) => ctl::mm(|| b.c.clone_from(&a.c)),
+                        (AnySet::C4(a), AnySet::C4(b)) => ctl::mm(|| b.c.clone_from(&a.c)),
+                        (AnySet::C6(a), AnySet::C6(b)) => ctl::mm(|| b.c.clone_from(&a.c)),
+                        (AnySet::C300(a), AnySet::C300(b)) => ctl::mm(|| b.c.clone_from(&a.c)),
+                        _ => unreachable!(),
+                    }
+                    ("()".into(), vec![], vec![i, d])
+                }
+                SetOp::CloneTo(dst) | SetOp::CloneFrom(dst) => {
                     let c: AnySet = match &regs.s[i] {
                         AnySet::C0(b) => AnySet::C0(regs::Caged::new(ctl::mm(|| b.c.clone()))),
                         AnySet::C1(b) => AnySet::C1(regs::Caged::new(ctl::mm(|| b.c.clone()))),
@@ -321,12 +363,12 @@ fn exec(regs: &mut Regs, cx: &mut Cx, op: &Op) -> (String, Vec<usize>, Vec<usize
 
 fn touched(op: &Op) -> (Vec<usize>, Vec<usize>) {
     match op {
-        Op::Map(i, MapOp::CloneTo(d)) => (vec![*i, *d], vec![]),
+        Op::Map(i, MapOp::CloneTo(d)) | Op::Map(i, MapOp::CloneFrom(d)) => (vec![*i, *d], vec![]),
         Op::Map(i, MapOp::Serde(d)) => (vec![*i, *d], vec![]),
         Op::Set(i, SetOp::Serde(d)) => (vec![], vec![*i, *d]),
         Op::Map(i, MapOp::Eq(o)) => (vec![*i, *o], vec![]),
         Op::Map(i, _) => (vec![*i], vec![]),
-        Op::Set(i, SetOp::CloneTo(d)) => (vec![], vec![*i, *d]),
+        Op::Set(i, SetOp::CloneTo(d)) | Op::Set(i, SetOp::CloneFrom(d)) => (vec![], vec![*i, *d]),
         Op::UMap(i, _) => (vec![], vec![*i]),
         Op::Set(i, SetOp::Eq(o))
         | Op::Set(i, SetOp::Alg(_, o, _))
